@@ -311,7 +311,9 @@ def apply_edit(root, path, op, arg, x):
     if op == "scribble":
         return scribble(node)
     if isinstance(arg, dict) and "input" in arg:
-        arg = copy.deepcopy(x)
+        # `seen.append(x)`: the input when it is a scalar, else its type name (an implementation that hands out one
+        # shared parameter object must not make the parameter contain ever larger copies of itself)
+        arg = x if (x is None or isinstance(x, (bool, int, str))) else type(x).__name__
     else:
         arg = dec(arg)
     if op == "append":
@@ -357,6 +359,7 @@ def mut_core(tag, d):
     spec = dict((n, b) for n, b in params)
     edits = d.get("edits", [])
     positional = d.get("via") == "fpartial_pos"
+    written = dict((n, enc_s(dec(b["c"]))) for n, b in params if "c" in b)
 
     def core(x, got):
         MUT["entries"] += 1
@@ -366,15 +369,19 @@ def mut_core(tag, d):
         for n, v in snap:
             b = spec[n]
             if "c" in b:
-                want = dec(b["c"])
+                want_s = written[n]
             elif o is not None and (b["o"] in o or "d" in b):
-                want = resolve_bparam(b, o)
+                want_s = enc_s(resolve_bparam(b, o))
             else:
                 continue
             MUT["checked"] += 1
-            if enc_s(v) != enc_s(want):
-                MUT["bad"].append({"step": tag, "parameter": n, "written": enc(want), "received": enc(v),
-                                   "evaluation": MUT["entries"]})
+            got_s = enc_s(v)
+            if got_s != want_s:
+                if len(MUT["bad"]) < 50:
+                    MUT["bad"].append({"step": tag, "parameter": n, "written": json.loads(want_s), "received": enc(v),
+                                       "evaluation": MUT["entries"]})
+                if len(got_s) > 20000:
+                    raise EditFailed("parameter %s keeps growing" % n)
         exc = None
         try:
             r = base(*([v for _, v in snap] + [xs])) if positional else base(xs, **dict(snap))
@@ -828,7 +835,7 @@ def run_pipe(case):
             o2[k] = 7
         others.append(o2)
     if case.get("family") == "mut" or any(d["k"] == "mut" for d in b.defs.values()):
-        others = [dict(options)] + others[:2]
+        others = [dict(options)] + others[:1]
     for o2 in others:
         CUR["options"] = o2
         fresh = Build(case).expr(case["expr"])
@@ -1778,6 +1785,10 @@ def mut_histogram(cases: List[dict], stats: Dict[str, int]) -> Dict[str, Any]:
             "edits_by_depth_inside_the_default": depth,
             "body_entries_logged": stats.get("entries", 0),
             "received_parameters_compared_with_the_written_value": stats.get("checked", 0),
+            "kept_out_of_the_oracle": "option VALUES that are or hold a tuple or a set, received by a body that edits "
+                                      "them: such a value is handed out as the caller's own object (observed on the "
+                                      "unchanged source; lists and dicts are rebuilt), so the edit changes the caller's "
+                                      "options dictionary",
             "oracle": "every law of the check (bracketing, (p+q).transform, >>, iteration order, keys/explain, history "
                       "independence against a freshly built pipeline, model agreement) plus: the value a body receives "
                       "for a parameter equals the value written in the step's definition"}
